@@ -5,6 +5,7 @@ interleaved; InteractionApplier.hh) and Model/TrackInit.lean (capacity checks of
 ExtendFromSecondariesAction / ExtendFromPrimariesAction, shared with C02).
 -/
 import CelerVerif.Lemmas.Stack
+import CelerVerif.Lemmas.StackInterleave6
 import CelerVerif.Lemmas.TrackInitStep
 
 namespace CelerVerif.Stack
@@ -98,6 +99,40 @@ theorem runAllocs_spec (ns : List Nat) (s : Stack) (hinv : s.size ≤ s.cap) (hc
         refine ⟨?_, i5⟩
         intro y _ a b ha
         simp at ha
+
+/-- ★ C16.2 (concurrent form) `interleaved_allocs_disjoint`: any number of threads, each
+    executing `atomic fetch-add`, `capacity check`, `restoring store` as separate atomic steps
+    (a thread issuing several requests is several such threads under a restricted schedule), for
+    EVERY schedule, starting from `size₀ ≤ cap`, under the explicit no-wrap hypothesis
+    `size₀ + Σ requests < 2^32`:
+    * ranges of two different successful threads never overlap (also in every transient state —
+      the statement holds after every prefix of every schedule, in particular while a failing
+      thread's restoring store is still pending or has just happened);
+    * every successful range lies in `[size₀, cap)`;
+    * at quiescence `size = size₀ + Σ successful requests ≤ cap`. -/
+theorem interleaved_allocs_disjoint (s0 : Sys) (hinit : ∀ t ∈ s0.threads, t.pc = .init)
+    (hsz : s0.size ≤ s0.cap) (hW : s0.size + total s0.threads < W) (sch : List Nat) :
+    (∀ (i j : Nat) (ti tj : Thread) (a b : Nat), i ≠ j →
+      (run s0 sch).threads[i]? = some ti → (run s0 sch).threads[j]? = some tj →
+      ti.pc = .ok a → tj.pc = .ok b → a + ti.n ≤ b ∨ b + tj.n ≤ a) ∧
+    (∀ t ∈ (run s0 sch).threads, ∀ a, t.pc = .ok a → s0.size ≤ a ∧ a + t.n ≤ s0.cap) ∧
+    (quiescent (run s0 sch) = true →
+      (run s0 sch).size = s0.size + ((run s0 sch).threads.map okN).sum ∧
+      (run s0 sch).size ≤ s0.cap) :=
+  interleaved_main s0 hinit hsz hW sch
+
+/-- the sequential allocator is the interleaving semantics under the schedule "three steps of
+    the same thread in a row" -/
+theorem alloc_eq_three_steps (cap size n : Nat) (hinv : size ≤ cap) (hw : size + n < W) :
+    let s := run ⟨cap, size, [⟨n, .init⟩]⟩ [0, 0, 0]
+    s.size = (alloc n ⟨cap, size, []⟩).2.size ∧
+    (match (alloc n ⟨cap, size, []⟩).1 with
+     | some a => s.threads = [⟨n, .ok a⟩]
+     | none => s.threads = [⟨n, .failed⟩]) := by
+  simp only [run, List.foldl, sched, stepThread, alloc, Nat.mod_eq_of_lt hw]
+  by_cases h : size + n > cap
+  · simp [h, hinv, Nat.mod_eq_of_lt hw]
+  · simp [h, Nat.mod_eq_of_lt hw]
 
 /-- ★ C16.3 a failed interaction (allocation failure inside the interactor) changes nothing
     of the physics: energy, direction, status, energy deposition, secondaries and the size of
@@ -207,6 +242,11 @@ theorem reset_after_error {cfg : TrackInit.Cfg} {s s' : TrackInit.State} {e : Tr
   · rw [hlive]; simp [TrackInit.reset, hL'.cfg_eq]
 
 /-! non-vacuity -/
+-- capacity 10: thread 0 gets [0,8), thread 1 (5) crosses the capacity, thread 2 (1) fails while
+-- thread 1's restore is pending, thread 1 restores, thread 3 (2) then still fits: [8,10)
+example : run ⟨10, 0, [⟨8, .init⟩, ⟨5, .init⟩, ⟨1, .init⟩, ⟨2, .init⟩]⟩
+    [0, 1, 2, 1, 2, 0, 1, 3, 3] =
+    ⟨10, 10, [⟨8, .ok 0⟩, ⟨5, .failed⟩, ⟨1, .failed⟩, ⟨2, .ok 8⟩]⟩ := by decide
 example : alloc 9 ⟨16, 8, List.replicate 16 0⟩ = (none, ⟨16, 8, List.replicate 16 0⟩) :=
   alloc_fail_restores _ _ (by decide) (by decide) (by decide)
 example : (alloc 8 ⟨16, 8, List.replicate 16 0⟩).1 = some 8 := by decide
